@@ -1,6 +1,7 @@
 package checks
 
 import (
+	"crypto/tls"
 	"context"
 	"encoding/json"
 	"fmt"
@@ -138,7 +139,11 @@ func raceReplay(job raceJob) {
 				c := &connCtl{}
 				c.client, c.server = h.NewDuplex()
 				conns = append(conns, c)
-				ln.ch <- net.Conn(c.server)
+				if sc.ImplicitTLS {
+					ln.ch <- net.Conn(tls.Server(c.server, h.ServerTLSConfig()))
+				} else {
+					ln.ch <- net.Conn(c.server)
+				}
 			case strings.HasSuffix(ev, "-temp"):
 				ln.ch <- error(tempErr{})
 			default:
